@@ -40,7 +40,7 @@ class C11(Prop):
     def cfg(self, tier):
         big = tier == "thorough"
         return gen_ir.Cfg(unnamed=True, max_defs=8 if big else 7, max_children=5 if big else 4,
-                          max_width=3, share=True, late=False, top="always", noref_children=True,
+                          max_width=3, share=True, late=False, dense=True, top="always", noref_children=True,
                           top_modes=["standalone", "definition", "child"], data=False)
 
     def strategy(self, tier):
